@@ -6,6 +6,9 @@ TECH = "bounded symbolic execution of the real dreye functions on z3-backed nump
 NOTE_COMMON = ("Reals, not floats. Shapes are bounded as stated in the evidence file (contents are fully symbolic). Compiled components are replaced by the contract "
                "stubs listed in DESIGN.md section 3 and in the evidence; a sat model is reported only after it reproduces on the unpatched code; unknown => exit 2.")
 CHECKS = {
+ "C05": ("exhaustive grid of (n_samples, batch_size) incl. non-dividing, larger-than-n and 'full' for the gaussian, poisson and excitation models: the real batching code "
+         "(padding, block-diagonal stacking, scatter) runs on symbolic contents through the cvxpy shim; z3 decides per row: no exception, the result row is its own block of the "
+         "stacked solution, it is optimal for its own target/weights alone (separability instance of the stacked contract), and the stacked problem is feasible whenever each row's is", "4 C05"),
  "C04": ("the real lsq_linear / ReceptorEstimator.fit run on fully symbolic A, targets, bounds, weights, K, baseline through a cvxpy shim whose solve() is a contract stub; "
          "z3 decides per target row: returned X within bounds, prediction == K(AX+baseline), global optimality of the documented weighted squared error "
          "(contract instance at an arbitrary competitor), feasibility of the problem handed to the solver, zero error <=> in gamut, and that no exception path is feasible", "4 C04"),
